@@ -36,6 +36,8 @@
 namespace Quic.Recovery.Cubic
 
 def u32Max : Nat := 4294967295
+/-- `max_datagram_size: u16` -/
+def u16Max : Nat := 65535
 
 /-- the saturating half of `f as u32` (oracle values are non-negative integers already) -/
 def sat32 (x : Nat) : Nat := min x u32Max
@@ -165,17 +167,21 @@ structure Oracle where
   scaled : Nat := 0
   deriving Repr, DecidableEq
 
+/-- `on_packet_sent`: the value assigned to `under_utilized` (evaluated after `bytes_in_flight` was increased) -/
+def underUtilizedAfterSend (s : State) (app : Option Bool) : Bool :=
+  match app with
+  | some a => a && isUnderUtilized s
+  | none => isUnderUtilized s
+
 /-- `on_packet_sent(time_sent, bytes_sent, app_limited, ..)` -/
 def onPacketSent (s : State) (bytes now : Nat) (app : Option Bool) : Option State :=
   if bytes = 0 then some s                       -- "Packet was not congestion controlled"
   else if bytes > u32Max then none               -- try_add: `u32::try_from(usize)` fails → `.expect` panics
-  else if s.inflight + bytes > u32Max then none       -- Counter `+=`: overflow panics (debug) / saturates (release)
+  else if s.inflight + bytes > u32Max then none  -- Counter `+=`: overflow panics (debug) / saturates (release)
   else
-    let s := { s with inflight := s.inflight + bytes }
-    let uu := match app with
-      | some a => a && isUnderUtilized s
-      | none => isUnderUtilized s
-    some { s with underUtilized := uu, phase := s.phase.clearFastRetransmission, lastSent := some now }
+    some { s with inflight := s.inflight + bytes,
+                  underUtilized := underUtilizedAfterSend { s with inflight := s.inflight + bytes } app,
+                  phase := s.phase.clearFastRetransmission, lastSent := some now }
 
 /-- `on_rtt_update(time_sent, now, ..)` -/
 def onRttUpdate (s : State) (now : Nat) (o : Oracle) : Option State :=
@@ -185,58 +191,61 @@ def onRttUpdate (s : State) (now : Nat) (o : Oracle) : Option State :=
     if s.phase.isSlowStart && o.rttExit then some { s with phase := Phase.congestionAvoidance now }
     else some s
 
-/-- `congestion_avoidance(t, rtt, sent_bytes, max_cwnd)` -/
+/-- `congestion_avoidance(t, rtt, sent_bytes, max_cwnd)`; the inner
+    `max_cwnd = (cwnd + sent_bytes / 2).min(max_cwnd)` is `min (s.w + o.halfAcked) maxCwnd` -/
 def congestionAvoidance (s : State) (maxCwnd : Nat) (o : Oracle) : State :=
-  let maxCwnd := min (s.w + o.halfAcked) maxCwnd
   if o.tcpFriendly then
-    { s with w := sat32 (min o.wEst maxCwnd) }     -- NO lower clamp here
+    { s with w := sat32 (min o.wEst (min (s.w + o.halfAcked) maxCwnd)) }     -- NO lower clamp here
   else if o.targetReached then s
-  else { s with w := sat32 (min (s.w + o.caInc) maxCwnd) }
+  else { s with w := sat32 (min (s.w + o.caInc) (min (s.w + o.halfAcked) maxCwnd)) }
+
+/-- `on_ack`: "Check if this ack causes the controller to exit recovery" -/
+def exitRecovery (s : State) (timeSent now : Nat) : State :=
+  match s.phase with
+  | .recovery start _ => if timeSent > start then { s with phase := Phase.congestionAvoidance now } else s
+  | _ => s
+
+/-- `on_ack` after the recovery-exit check: `max_cwnd`, the early return, the per-state arms -/
+def ackGrow (s : State) (now : Nat) (o : Oracle) : State :=
+  match s.phase with
+  | .slowStart =>
+    if o.atMax then s
+    else if o.ssExit then
+      { s with w := sat32 (min (s.w + o.ssInc) (max o.maxCwndRaw (minimumWindow s.mds))),
+               phase := Phase.congestionAvoidance now }
+    else { s with w := sat32 (min (s.w + o.ssInc) (max o.maxCwndRaw (minimumWindow s.mds))) }
+  | .recovery _ _ =>
+    -- `max_cwnd = self.congestion_window.max(minimum_window)`; neither branch changes anything
+    if s.w ≥ max s.w (minimumWindow s.mds) then s else s
+  | .congAvoid t =>
+    if o.atMax then s
+    else congestionAvoidance { s with phase := .congAvoid (t.onWindowIncrease now) } (max o.maxCwndRaw (minimumWindow s.mds)) o
 
 /-- `on_ack(newest_acked_time_sent, bytes_acknowledged, .., ack_receive_time, ..)` -/
 def onAck (s : State) (timeSent bytes now : Nat) (o : Oracle) : Option State :=
   if bytes > u32Max then none                    -- try_sub: conversion fails → `.expect` panics
-  else if s.inflight < bytes then none                -- Counter `-=`: underflow panics (debug) / saturates (release)
+  else if s.inflight < bytes then none           -- Counter `-=`: underflow panics (debug) / saturates (release)
+  else if s.underUtilized then
+    some { s with inflightHi := max s.inflightHi s.inflight, inflight := s.inflight - bytes,
+                  phase := s.phase.onAppLimited now }
   else
-    let s := { s with inflightHi := max s.inflightHi s.inflight, inflight := s.inflight - bytes }
-    if s.underUtilized then
-      some { s with phase := s.phase.onAppLimited now }
-    else
-      let s := match s.phase with
-        | .recovery start _ => if timeSent > start then { s with phase := Phase.congestionAvoidance now } else s
-        | _ => s
-      let minw := minimumWindow s.mds
-      match s.phase with
-      | .slowStart =>
-        let maxCwnd := max o.maxCwndRaw minw
-        if o.atMax then some s
-        else
-          let s := { s with w := sat32 (min (s.w + o.ssInc) maxCwnd) }
-          if o.ssExit then some { s with phase := Phase.congestionAvoidance now } else some s
-      | .recovery _ _ =>
-        -- `max_cwnd = self.congestion_window.max(minimum_window)`; neither branch changes anything
-        let maxCwnd := max s.w minw
-        if s.w ≥ maxCwnd then some s else some s
-      | .congAvoid t =>
-        let maxCwnd := max o.maxCwndRaw minw
-        if o.atMax then some s
-        else some (congestionAvoidance { s with phase := .congAvoid (t.onWindowIncrease now) } maxCwnd o)
+    some (ackGrow (exitRecovery { s with inflightHi := max s.inflightHi s.inflight, inflight := s.inflight - bytes } timeSent now) now o)
 
-/-- `on_congestion_event(event_time)` -/
+/-- `on_congestion_event(event_time)`: `bytes_in_flight_hi` is reset first, then
+    "No reaction if already in a recovery period." -/
 def onCongestionEvent (s : State) (now : Nat) (o : Oracle) : State :=
-  let s := { s with inflightHi := 0 }
   match s.phase with
-  | .recovery _ _ => s                             -- "No reaction if already in a recovery period."
-  | _ => { s with phase := .recovery now true, w := sat32 (max o.decrease (minimumWindow s.mds)) }
+  | .recovery _ _ => { s with inflightHi := 0 }
+  | _ => { s with inflightHi := 0, phase := .recovery now true, w := sat32 (max o.decrease (minimumWindow s.mds)) }
 
 /-- `on_packet_lost(lost_bytes: u32, _, persistent_congestion, _, _, timestamp, ..)` -/
 def onPacketLost (s : State) (bytes : Nat) (persistent : Bool) (now : Nat) (o : Oracle) : Option State :=
   if bytes = 0 then none                         -- `debug_assert!(lost_bytes > 0)`
-  else if s.inflight < bytes then none                -- Counter `-=`
-  else
-    let s := onCongestionEvent { s with inflight := s.inflight - bytes } now o
-    if persistent then some { s with w := minimumWindow s.mds, phase := .slowStart }
-    else some s
+  else if s.inflight < bytes then none           -- Counter `-=`
+  else if persistent then
+    some { onCongestionEvent { s with inflight := s.inflight - bytes } now o with
+           w := minimumWindow s.mds, phase := .slowStart }
+  else some (onCongestionEvent { s with inflight := s.inflight - bytes } now o)
 
 /-- `on_explicit_congestion(_, event_time, ..)` -/
 def onExplicitCongestion (s : State) (now : Nat) (o : Oracle) : Option State :=
@@ -245,7 +254,8 @@ def onExplicitCongestion (s : State) (now : Nat) (o : Oracle) : Option State :=
 /-- `on_mtu_update(max_datagram_size, ..)`:
     `self.congestion_window = max(congestion_window as u32, initial_window) as f32` -/
 def onMtuUpdate (s : State) (mds : Nat) (o : Oracle) : Option State :=
-  some { s with mds := mds, w := sat32 (max (sat32 o.scaled) (initialWindow mds)) }
+  if mds > u16Max then none                      -- not a `u16`: outside the domain of the trait method
+  else some { s with mds := mds, w := sat32 (max (sat32 o.scaled) (initialWindow mds)) }
 
 /-- `on_packet_discarded(bytes_sent, ..)` -/
 def onPacketDiscarded (s : State) (bytes : Nat) : Option State :=
@@ -312,8 +322,8 @@ def observe (s : State) : Obs :=
 
 /-! ### relational check used by the driver
   `candidates s op obs` proposes oracle values under which the skeleton could have produced the
-  observed post-state; `admit` runs the real `step` on them. By construction a successful `admit`
-  is a step of the skeleton (`admit_sound`). -/
+  observed post-state; `accept` runs the real `step` on them. By construction a successful `accept`
+  is a step of the skeleton (`accept_sound`). -/
 
 def candidates (s : State) (op : Op) (obs : Obs) : List Oracle :=
   let W := obs.cwnd
@@ -332,13 +342,13 @@ def candidates (s : State) (op : Op) (obs : Obs) : List Oracle :=
       { maxCwndRaw := max W s.w, halfAcked := W - s.w, caInc := W - s.w },
       { maxCwndRaw := max W s.w, halfAcked := W - s.w, tcpFriendly := true, wEst := W } ]
 
-def admit (s : State) (op : Op) (obs : Obs) : Option (Oracle × State) :=
+def accept (s : State) (op : Op) (obs : Obs) : Option (Oracle × State) :=
   (candidates s op obs).findSome? fun o =>
     match step s op o with
     | some s' => if observe s' = obs then some (o, s') else none
     | none => none
 
 /-- the real code panicked: admitted iff the skeleton panics too (it never depends on the oracle) -/
-def admitPanic (s : State) (op : Op) : Bool := (step s op {}).isNone
+def acceptPanic (s : State) (op : Op) : Bool := (step s op {}).isNone
 
 end Quic.Recovery.Cubic
